@@ -359,11 +359,122 @@ def _sp_count(ex, node, st):
     ty = xs.ty
     n  = ex.as_int(st, ex.ev(node.args[2], st)) if len(node.args) > 2 \
          else ty.len(xs.term)
-    key = 'count:' + ty.key
-    if key not in ex.__dict__.setdefault('_axiom_keys', set()):
-        ex._axiom_keys.add(key)
-        ex.axioms.extend(count_axioms(ty))
-    return Val(TInt, count_fn(ty)(ty.arr(xs.term), coerce(v, ty.elem).term, n))
+    if st.qvars:
+        # inside a quantifier the index is a bound variable: no ground
+        # unfolding possible here, the term alone is returned
+        key = 'count:' + ty.key
+        keys = ex.__dict__.setdefault('_axiom_keys', set())
+        if key not in keys:
+            keys.add(key)
+            ex.axioms.extend(count_axioms(ty))
+        if _mentions(n, st.qvars) or _mentions(v.term, st.qvars):
+            return Val(TInt, count_fn(ty)(ty.arr(xs.term),
+                                          coerce(v, ty.elem).term, n))
+    return Val(TInt, count_term(ex, ty, ty.arr(xs.term),
+                                coerce(v, ty.elem).term, n))
+
+
+def _mentions(term, qvars):
+    ids = {v.term.get_id() for v in qvars.values() if v.term is not None}
+    todo, seen = [term], set()
+    while todo:
+        x = todo.pop()
+        if x.get_id() in seen: continue
+        seen.add(x.get_id())
+        if x.get_id() in ids: return True
+        todo.extend(x.children())
+    return False
+
+
+def _sp_sumf(ex, node, st):
+    """sumf('name', xs, n, *params): sum over i < n of the element term of
+    the registered sum function `name` (REG.sums[name] = (elemvar, [params],
+    text)).  Axioms: F(xs, p.., 0) = 0 and, for n > 0,
+    F(xs, p.., n) = F(xs, p.., n-1) + elem(xs[n-1], p..), instantiated on the
+    pattern F(xs, p.., n)."""
+    name = node.args[0].value
+    xs   = ex.ev(node.args[1], st)
+    ty   = xs.ty
+    n    = ex.as_int(st, ex.ev(node.args[2], st)) if len(node.args) > 2 and \
+           not (isinstance(node.args[2], ast.Constant) and node.args[2].value is None) \
+           else ty.len(xs.term)
+    pvals = [ex.ev(a, st) for a in node.args[3:]]
+    evar, pnames, text, rty = ex.reg.sums[name]
+    key = ('sum', name, ty.key) + tuple(p.ty.key for p in pvals)
+    cache = ex.__dict__.setdefault('_sum_fns', dict())
+    if key not in cache:
+        f = z3.Function('sum!%s!%d' % (name, len(cache)),
+                        *([z3.ArraySort(z3.IntSort(), ty.elem.sort())] +
+                          [p.ty.sort() for p in pvals] +
+                          [z3.IntSort(), rty.sort()]))
+        a  = z3.Const('sum!a!%s' % name, z3.ArraySort(z3.IntSort(), ty.elem.sort()))
+        ps = [z3.Const('sum!p%d!%s' % (i, name), p.ty.sort())
+              for i, p in enumerate(pvals)]
+        k  = z3.Int('sum!n!%s' % name)
+        sub = st.fork()
+        sub.env = dict(st.env)
+        sub.env[evar] = Val(ty.elem, z3.Select(a, k - 1))
+        for pn, pc, pv in zip(pnames, ps, pvals):
+            sub.env[pn] = Val(pv.ty, pc)
+        elem = coerce(ex.spec_expr(text, sub), rty)
+        zero = z3.RealVal(0) if rty == TReal else z3.IntVal(0)
+        base_ax = z3.ForAll([a] + ps, f(*([a] + ps + [z3.IntVal(0)])) == zero)
+        rec_ax  = z3.ForAll([a] + ps + [k], z3.Implies(k > 0,
+            f(*([a] + ps + [k])) == f(*([a] + ps + [k - 1])) + elem.term),
+            patterns=[f(*([a] + ps + [k]))])
+        # the recursive axiom matches its own instances: it is only used to
+        # prove the prefix-frame lemma below; elsewhere the definition is
+        # unfolded one step wherever a sum term is mentioned
+        ex.axioms.append(base_ax)
+        cache[key] = f
+        cache[('elem',) + key] = (a, ps, k, elem.term, zero)
+        # prefix frame: F depends only on the cells below n.  Proved by
+        # induction on n (base + step obligations), then used as an axiom.
+        if not ex.specmode_lemma_only:
+            e  = z3.Const('sum!e!%s' % name, ty.elem.sort())
+            kk = z3.Int('sum!k!%s' % name)
+            sa = z3.Store(a, kk, e)
+            lhs = lambda m: f(*([sa] + ps + [m]))
+            rhs = lambda m: f(*([a] + ps + [m]))
+            unfold = [base_ax, rec_ax]
+            from .symexec import State
+            base = State(); base.pc = []
+            sm = ex.specmode; ex.specmode = 0
+            saved_ax = ex.axioms; ex.axioms = unfold
+            try:
+                ex.oblige(base, 'lemma:sum-%s-prefix-frame/base' % name,
+                          lhs(z3.IntVal(0)) == rhs(z3.IntVal(0)), 'lemma',
+                          note='F(store(a,k,e), 0) == F(a, 0)')
+                step = State()
+                step.pc = [k >= 0, k < kk, lhs(k) == rhs(k)]
+                ex.oblige(step, 'lemma:sum-%s-prefix-frame/step' % name,
+                          lhs(k + 1) == rhs(k + 1), 'lemma',
+                          note='n < k and F(store(a,k,e), n) == F(a, n) ==> '
+                               'F(store(a,k,e), n+1) == F(a, n+1)')
+            finally:
+                ex.axioms = saved_ax; ex.specmode = sm
+            ex.axioms.append(z3.ForAll([a] + ps + [kk, e, k], z3.Implies(
+                z3.And(0 <= k, k <= kk), lhs(k) == rhs(k)),
+                patterns=[lhs(k)]))
+    f = cache[key]
+    A = ty.arr(xs.term)
+    a, ps, k, elem_t, zero = cache[('elem',) + key]
+    if not _mentions(n, st.qvars) and not _mentions(A, st.qvars):
+        keys = ex.__dict__.setdefault('_axiom_keys', set())
+        for N in (n, n - 1):
+            ik = ('sum-unfold', name, A.get_id(), z3.simplify(N).get_id())
+            if ik in keys:
+                continue
+            keys.add(ik)
+            inst = z3.substitute(elem_t, (a, A), (k, N))
+            body = f(*([A] + ps + [N])) == z3.If(N > 0,
+                       f(*([A] + ps + [N - 1])) + inst, zero)
+            if ps:
+                ex.axioms.append(z3.ForAll(ps, body,
+                                 patterns=[f(*([A] + ps + [N]))]))
+            else:
+                ex.axioms.append(body)
+    return Val(rty, f(*([A] + [p.term for p in pvals] + [n])))
 
 
 def _sp_implies(ex, node, st):
@@ -461,7 +572,7 @@ def _sp_lookup(ex, node, st):
     return ex.subscript(m, k, st)
 
 
-_SPEC_PRIMS = {'old': _sp_old, 'count': _sp_count, 'aslist': _sp_aslist, 'at_head': _sp_at_head, 'implies': _sp_implies, 'iff': _sp_iff,
+_SPEC_PRIMS = {'old': _sp_old, 'sumf': _sp_sumf, 'count': _sp_count, 'aslist': _sp_aslist, 'at_head': _sp_at_head, 'implies': _sp_implies, 'iff': _sp_iff,
                'forall': _sp_forall, 'exists': _sp_exists,
                'bound': _sp_bound, 'is_some': _sp_some, 'val': _sp_val,
                'ite': _sp_ite, 'indom': _sp_domain, 'at': _sp_lookup,
@@ -1193,18 +1304,40 @@ def count_fn(ty):
 
 
 def count_axioms(ty):
+    """bounds only (0 <= count <= n); the recursive definition is unfolded on
+    mention (count_term), never by a self-matching quantifier"""
     f = count_fn(ty)
     a = z3.Const('cnt!a!%s' % ty.key, z3.ArraySort(z3.IntSort(), ty.elem.sort()))
     v = z3.Const('cnt!v!%s' % ty.key, ty.elem.sort())
     n = z3.Int('cnt!n')
-    return [z3.ForAll([a, v], f(a, v, 0) == 0),
-            z3.ForAll([a, v, n], z3.Implies(n > 0,
-                f(a, v, n) == f(a, v, n - 1) +
-                z3.If(z3.Select(a, n - 1) == v, 1, 0)),
-                patterns=[f(a, v, n)]),
-            z3.ForAll([a, v, n], z3.Implies(n >= 0,
+    return [z3.ForAll([a, v, n], z3.Implies(n >= 0,
                 z3.And(f(a, v, n) >= 0, f(a, v, n) <= n)),
                 patterns=[f(a, v, n)])]
+
+
+def count_term(ex, ty, arr, v, n):
+    """count!(arr, v, n) plus its one-step unfolding at n:
+       n <= 0 -> 0 ;  n > 0 -> count(arr, v, n-1) + [arr[n-1] == v]"""
+    key = 'count:' + ty.key
+    keys = ex.__dict__.setdefault('_axiom_keys', set())
+    if key not in keys:
+        keys.add(key)
+        ex.axioms.extend(count_axioms(ty))
+    f = count_fn(ty)
+    t = f(arr, v, n)
+    ik = ('cnt-unfold', t.get_id())
+    if ik not in keys:
+        keys.add(ik)
+        ex.axioms.append(t == z3.If(n > 0,
+                         f(arr, v, n - 1) + z3.If(z3.Select(arr, n - 1) == v, 1, 0),
+                         0))
+        # one more level is cheap and often needed (loop index i and i+1)
+        t1 = f(arr, v, n - 1)
+        ik1 = ('cnt-unfold', t1.get_id())
+        if ik1 not in keys:
+            keys.add(ik1)
+            ex.axioms.append(z3.Implies(n - 1 <= 0, t1 == 0))
+    return t
 
 
 def list_count(ex, recv, arg, st):
@@ -1215,11 +1348,8 @@ def list_count(ex, recv, arg, st):
         return res
     ty = recv.ty
     a = coerce(arg, ty.elem)
-    key = 'count:' + ty.key
-    if key not in ex.__dict__.setdefault('_axiom_keys', set()):
-        ex._axiom_keys.add(key)
-        ex.axioms.extend(count_axioms(ty))
-    return Val(TInt, count_fn(ty)(ty.arr(recv.term), a.term, ty.len(recv.term)))
+    return Val(TInt, count_term(ex, ty, ty.arr(recv.term), a.term,
+                                ty.len(recv.term)))
 
 
 def list_remove(ex, recv, arg, st, write):
